@@ -2,6 +2,7 @@ package gen
 
 import (
 	"fmt"
+	"os"
 	"math/rand"
 	"testing"
 )
@@ -24,5 +25,31 @@ func TestAbstractSamples(t *testing.T) {
 			}
 		}
 		fmt.Printf("%s: %d/200 usable\n", kind, ok)
+	}
+}
+
+func TestAbstractCorpus(t *testing.T) {
+	src, err := os.ReadFile("/usr/lib/go-1.23/src/strings/strings.go")
+	if err != nil {
+		t.Skip()
+	}
+	for _, kind := range []string{"expr", "stmts", "decl"} {
+		ok := 0
+		for i := 0; i < 100; i++ {
+			g := NewG(rand.New(rand.NewSource(int64(i))))
+			fr := g.CorpusFragment(kind, src)
+			if fr == "" {
+				continue
+			}
+			c := g.AbstractFrom(kind, fr)
+			if c == nil {
+				continue
+			}
+			ok++
+			if i < 4 {
+				fmt.Printf("--- corpus %s %d\n%s", kind, i, c.PatchText())
+			}
+		}
+		fmt.Printf("corpus %s: %d/100 usable\n", kind, ok)
 	}
 }
